@@ -27,6 +27,11 @@ mod range;
 mod select;
 mod truncate;
 
+#[cfg(feature = "verif")]
+mod verif;
+#[cfg(feature = "verif")]
+pub use verif::{VerifGate, VerifSnapshot};
+
 #[cfg(test)]
 mod tests;
 
